@@ -46,6 +46,33 @@ def corpus_cases():
     c.append(case('c11r-two-restarts', 'a => b => c', [
         L, S('1/c', pre=['all'], flow=['new']), L, *RESTART, L, *run_ok('1/a'), L, S('1/b', pre=['all'], flow=['2']),
         L, *STOP_NOW, L, L, *run_ok('1/b'), L, L, L]))
+    # a task that ran to completion in flow 1 is re-run in a LATER flow (database rows of the instance under several
+    # flow numbers) and is running / failed / succeeded-incomplete in that flow at the stop: the restart must
+    # restore the outputs of the pooled flow's run, not those of the earlier flow
+    rerun = [L, sub('1/a'), msg('1/a', 'started'), msg('1/a', 'xx'), msg('1/a', 'succeeded'), L, L]
+    c.append(case('c11r-rerun-new-running', 'a:x => b', [
+        *rerun, S('1/a', pre=['all'], flow=['new']), L, sub('1/a', 2), msg('1/a', 'started', 2), L, *RESTART, L,
+        msg('1/a', 'xx', 2), L, msg('1/a', 'succeeded', 2), L, L]))
+    c.append(case('c11r-rerun-flow3-failed', 'a:x => b', [
+        *rerun, S('1/a', pre=['all'], flow=['3']), L, sub('1/a', 2), msg('1/a', 'started', 2),
+        msg('1/a', 'failed', 2), L, *STOP_NOW, L, S('1/a', out=['x']), L, L]))
+    c.append(case('c11r-rerun-twice', 'a:x => b', [
+        *rerun, S('1/a', pre=['all'], flow=['new']), L, sub('1/a', 2), msg('1/a', 'started', 2),
+        msg('1/a', 'succeeded', 2), L, S('1/a', pre=['all'], flow=['new']), L, sub('1/a', 3), L, *RESTART, L,
+        msg('1/a', 'started', 3), L, *RESTART, L, L]))
+    k = case('c11r-rerun-trigger-new', 'a:x => b', [
+        *rerun, T(['1/a'], flow=['new']), L, sub('1/a', 2), msg('1/a', 'started', 2), L, *RESTART, L,
+        msg('1/a', 'xx', 2), L, msg('1/a', 'succeeded', 2), L, L])
+    k['kind'] = 'trigw'
+    c.append(k)
+    # out-of-order arrival: a required custom output is reported AFTER the final status message; once everything
+    # the completion expression needs has been delivered the task leaves the pool and the children are spawned
+    c.append(case('c11r-late-custom', 'a:x & a => b', [
+        L, sub('1/a'), msg('1/a', 'started'), msg('1/a', 'succeeded'), L, msg('1/a', 'xx'), L, L, L]))
+    c.append(case('c11r-late-custom-failed', 'a:x & a:fail? => b', [
+        L, sub('1/a'), msg('1/a', 'started'), msg('1/a', 'failed'), msg('1/a', 'xx'), L, L, L]))
+    c.append(case('c11r-late-custom-restart', 'a:x & a => b', [
+        L, sub('1/a'), msg('1/a', 'started'), msg('1/a', 'succeeded'), L, *RESTART, L, msg('1/a', 'xx'), L, L, L]))
     # `cylc trigger --flow=2 --wait` (judged on the real trace only: kind trigw)
     k = case('c11r-trigger-wait', 'a => b => c', [
         T(['1/b'], flow=['2'], wait=True), L, *RESTART, L, *run_ok('1/b'), L, L, *RESTART, L, *run_ok('1/a'), L, L,
@@ -123,7 +150,7 @@ class C11R(SchedProp):
             'flows, flow wait, manual-submit, held, outputs, prerequisites, hold / stop state); non-trivial = distinct class '
             '(kind, number of restarts, what the pool held at a restart: flow-wait / several flows / merged / preparing / '
             'finished-incomplete / manually triggered tasks, forced outputs in the run) per distinct case')
-    kinds = ('setR', 'setanyR', 'setR', 'trigw')
+    kinds = ('setR', 'setanyR', 'setF', 'trigw')
     n_quick = 48
     n_thorough = 640
 
@@ -170,6 +197,21 @@ class C11R(SchedProp):
                     seen.add('incomplete')
                 if any(x['man'] for x in (b.get('xt') or {}).get('pool', [])):
                     seen.add('man')
+                rows = next((o['ts'] for o in reversed(obs[:k + 1]) if o.get('ts')), [])
+                for t in b['pool']:
+                    if t['st'] in ('running', 'failed', 'succeeded') and any(
+                            r[0] == t['p'] and r[1] == t['n'] and r[2] != t['fl'] and r[6] for r in rows):
+                        # the instance has an outputs record under other flow numbers too
+                        seen.add('multirow' + ('<' if any(
+                            r[0] == t['p'] and r[1] == t['n'] and r[6] and str(r[2]) < str(t['fl']) for r in rows) else ''))
+        final = set()
+        for op in ops:
+            if op.get('op') == 'msg':
+                key = (op['task'], op['sn'])
+                if op['msg'] in ('succeeded', 'failed'):
+                    final.add(key)
+                elif key in final and op['msg'] not in ('started', 'submitted'):
+                    seen.add('late-custom')
         forced = any(m.get('forced') for o in obs for m in o.get('msgs', []))
         tags.append(f'restarts={nres}')
         tags.append(','.join(sorted(seen)) or '-')
@@ -178,7 +220,7 @@ class C11R(SchedProp):
 
 
 def gen_case(seed, kind):
-    """setR / setanyR: the C29 generator (`cylc set` with --flow / --wait on pooled and inactive instances) with stop +
+    """setF: see below; setR / setanyR: the C29 generator (`cylc set` with --flow / --wait on pooled and inactive instances) with stop +
     restart at random points (1-2 restarts, all three stop modes) and more --wait;
     trigw: `cylc trigger` (groups, --flow=N, --wait) with stop + restart (judged on the real trace only)"""
     if kind in ('setR', 'setanyR'):
@@ -188,7 +230,18 @@ def gen_case(seed, kind):
         pol['cmds'] = ['set_out', 'set_out', 'set_pre', 'set_pre', 'set_out', 'set_pre', 'hold', 'release',
                        'set_hold_point', 'release_hold_point', 'stop_clean', 'stop_now', 'stop_now_now', 'stop_now',
                        'pause', 'resume']
-        pol.update(p_wait=0.4, restarts=1 + seed % 2, p_cmd=max(pol.get('p_cmd', 0.1), 0.18))
+        pol.update(p_wait=0.4, restarts=1 + seed % 2, p_cmd=max(pol.get('p_cmd', 0.1), 0.18), p_custom_late=0.35)
+        return c
+    if kind == 'setF':
+        # instances that already ran and left the pool are re-run in LATER flows (`cylc set --pre=all --flow=new / N`):
+        # rows of one instance under several flow numbers, the instance active in the later flow at a stop
+        c = sgen.gen_case(seed, 'setany' if seed % 3 == 0 else 'set')
+        c['id'] = f'setF{seed}'
+        pol = c['policy']
+        # (the stops come while such a re-run is running / failed / succeeded: policy p_stop_rerun; one generic stop)
+        pol['cmds'] = ['set_pre', 'set_out', 'set_pre', 'set_pre', 'set_pre', 'hold', 'release', 'set_pre', 'set_out',
+                       'stop_now_now', 'set_pre', 'set_pre']
+        pol.update(p_set_finished=0.7, p_stop_rerun=0.35, p_wait=0.2, restarts=2, p_cmd=0.22, p_custom_late=0.35)
         return c
     if kind == 'trigw':
         c = sgen.gen_case(seed, 'cmdtrig' if seed % 2 else 'cmdtrigc')
